@@ -625,6 +625,12 @@ func (il *inliner) buildBlock(fd *ast.FuncDecl, obj *types.Func, call *ast.CallE
 			tmpNames = append(tmpNames, "-")
 			continue
 		}
+		if lit := il.effectFreeLiteral(call.Args[i]); lit != "" {
+			// a literal of constants, variables and function literals: nothing to evaluate in order;
+			// bound to the parameter directly, so that a parameter object can be taken apart
+			tmpNames = append(tmpNames, "("+lit+")")
+			continue
+		}
 		t := fmt.Sprintf("a__inl%d_%d", id, i)
 		sb.WriteString(fmt.Sprintf("var %s %s = %s; ", t, sh.ptypes[i], il.text(call.Args[i])))
 		tmpNames = append(tmpNames, t)
@@ -2157,6 +2163,18 @@ func (il *inliner) scalarise(fd *ast.FuncDecl) []inlineEdit {
 				}
 			}
 		case *ast.AssignStmt:
+			if len(x.Lhs) == 1 && len(x.Rhs) == 1 && x.Tok == token.ASSIGN {
+				// `_ = v`: the keep-alive the inliner itself writes after a binding
+				if lid, ok := x.Lhs[0].(*ast.Ident); ok && lid.Name == "_" {
+					if rid, ok := ast.Unparen(x.Rhs[0]).(*ast.Ident); ok {
+						if v, ok := info.Uses[rid].(*types.Var); ok && cands[v] != nil {
+							uses = append(uses, useT{node: x, kind: "blank", v: v})
+							claimed[rid] = true
+							return false
+						}
+					}
+				}
+			}
 			if len(x.Lhs) == 1 && len(x.Rhs) == 1 {
 				if id, ok := x.Lhs[0].(*ast.Ident); ok {
 					var v *types.Var
@@ -2268,12 +2286,23 @@ func (il *inliner) scalarise(fd *ast.FuncDecl) []inlineEdit {
 		return vals, true
 	}
 	done := map[*types.Var]bool{}
+	selUses := map[*types.Var]map[string]int{}
+	for _, u := range uses {
+		if u.kind == "sel" {
+			if selUses[u.v] == nil {
+				selUses[u.v] = map[string]int{}
+			}
+			selUses[u.v][u.fld]++
+		}
+	}
 	for _, u := range uses {
 		c := cands[u.v]
 		if c == nil || !c.ok {
 			continue
 		}
 		switch u.kind {
+		case "blank":
+			edits = append(edits, inlineEdit{off(u.node.Pos()), off(u.node.End()), "_ = 0"})
 		case "sel":
 			edits = append(edits, inlineEdit{off(u.node.Pos()), off(u.node.End()), fname(u.v, u.fld)})
 		case "spec":
@@ -2297,6 +2326,11 @@ func (il *inliner) scalarise(fd *ast.FuncDecl) []inlineEdit {
 			var sb strings.Builder
 			for _, f := range c.fields {
 				if val, has := vals[f.name]; has {
+					if strings.HasPrefix(strings.TrimSpace(val), "func(") && strings.HasPrefix(strings.TrimSpace(f.typ), "func(") && selUses[u.v][f.name] > 0 {
+						// a callback: a local closure, which the next round expands at its calls
+						sb.WriteString(fmt.Sprintf("%s := %s; ", fname(u.v, f.name), val))
+						continue
+					}
 					sb.WriteString(fmt.Sprintf("var %s %s = %s; _ = %s; ", fname(u.v, f.name), f.typ, val, fname(u.v, f.name)))
 				} else {
 					sb.WriteString(fmt.Sprintf("var %s %s; _ = %s; ", fname(u.v, f.name), f.typ, fname(u.v, f.name)))
@@ -2460,6 +2494,38 @@ func (il *inliner) dropInlinedClosures(fd *ast.FuncDecl, file string) {
 		}
 		delete(il.closureDef, syn)
 	}
+}
+
+// effectFreeLiteral: e is a struct literal (or its address) whose element values are function
+// literals, identifiers, selectors of identifiers and basic literals: its text; "" otherwise.
+func (il *inliner) effectFreeLiteral(e ast.Expr) string {
+	x := ast.Unparen(e)
+	if u, ok := x.(*ast.UnaryExpr); ok && u.Op == token.AND {
+		x = ast.Unparen(u.X)
+	}
+	cl, ok := x.(*ast.CompositeLit)
+	if !ok || cl.Type == nil {
+		return ""
+	}
+	if _, isStruct := il.pkg.TypesInfo.TypeOf(cl).Underlying().(*types.Struct); !isStruct {
+		return ""
+	}
+	for _, el := range cl.Elts {
+		v := el
+		if kv, ok := el.(*ast.KeyValueExpr); ok {
+			v = kv.Value
+		}
+		switch y := ast.Unparen(v).(type) {
+		case *ast.FuncLit, *ast.BasicLit, *ast.Ident:
+		case *ast.SelectorExpr:
+			if _, ok := ast.Unparen(y.X).(*ast.Ident); !ok {
+				return ""
+			}
+		default:
+			return ""
+		}
+	}
+	return il.text(e)
 }
 
 // funcParamBinding: parameter i of fd has a function type, the callee only ever calls it, and the
